@@ -1682,7 +1682,7 @@ ASSUMPTIONS = ['A-REAL: floats are mathematical reals. In floats a draw on a fac
                'RomcPosterior class invariant: one objective and one region per accepted problem (len(funcs) == len(regions)); sample: sequential path (parallelize is False); '
                'the multiprocessing path maps _worker_compute_weight, which is under contract, over the regions']
 NOT_PROVED = ['"density integrates to one" (title): the integral of pdf = 1[contains]/volume over R^D is vol(R.B + c)/prod(widths) = |det R|; it is one iff |det R| = 1 '
-              '(change of variables; paper lemma in the docstring of contracts/c19.py, NOT mechanised); NDimBoundingBox only asserts full rank',
+              '(change of variables: Lean lemma L5, lemmas/L5.lean - volume_rotated_box / volume_linear_image_box, accepted by lean + Mathlib and re-checked in the thorough tier - gives vol(R.B + c) = |det R| * prod(widths) for every linear R); NDimBoundingBox only asserts full rank',
               '_find_rotation_vector returns a full-rank matrix of search directions: numpy.linalg (eig, matrix_rank), assumed',
               'samples are uniformly distributed in the region (not claimed by the property; note: sample() passes the SAME seed to every dimension)']
 
@@ -1770,3 +1770,5 @@ def replay_refuted(cname, rf):
 def replay_input(inp):
     from bounded import c19 as b
     return b.replay_input(inp)
+
+USES_LEAN_LEMMAS = ['L5 volume of a linearly transformed box']      # re-checked with lean (selftest/lean_check.sh) in the thorough tier
